@@ -48,8 +48,9 @@ func (f *fragment) Stats() storage.Stats {
 func (f *fragment) Compaction() (bool, error) {
 	select {
 	case <-f.ctx.Done():
-		// fragment is closed or destroyed
-		return false, nil
+		// The fragment is closed or destroyed: nothing is left to compact. Reporting "not done"
+		// would make the caller try again forever and block every later compaction round.
+		return true, nil
 	default:
 	}
 	return f.storage.Compaction()
